@@ -3,6 +3,7 @@ package tun
 import (
 	"fmt"
 	"net"
+	"os"
 	"sync"
 	"sync/atomic"
 	"testing"
@@ -31,6 +32,10 @@ type streamPlan struct {
 	Group   bool  `json:"group"`
 	TCP     bool  `json:"tcp"`
 	Sends   int   `json:"sends"`   // telegrams the application sends meanwhile
+	Senders int   `json:"senders"` // goroutines that share them (0 = 1)
+	// LoseEvery > 0: the gateway does not see the first transmission of every LoseEvery-th request of the application
+	// (it is lost on the way), so that the repetition is what it accepts; the resend interval is 20 ms then
+	LoseEvery int `json:"lose_every,omitempty"`
 	HbUs    int   `json:"hb_us"`   // heartbeat interval (0 = none within the run)
 	StartCh uint8 `json:"channel"` // channel the gateway assigns
 }
@@ -43,6 +48,9 @@ func streamRun(p streamPlan) (*common.Fail, string) {
 	sock := common.NewMemSock(local)
 	var mu sync.Mutex
 	next := 0 // number of telegrams tunnelled so far
+	var bus []int
+	gwExpect, nReq, lostSeq, lostTag := 0, 0, -1, 0
+	var sendProblem string
 	var ackProblem string
 	var acks int64
 	ch := p.StartCh
@@ -61,9 +69,35 @@ func streamRun(p streamPlan) (*common.Fail, string) {
 		case *knxnet.DiscReq:
 			sock.Inject(&knxnet.DiscRes{Channel: v.Channel, Status: knxnet.NoError})
 		case *knxnet.TunnelReq:
-			if !p.TCP {
+			if p.TCP {
+				mu.Lock()
+				bus = append(bus, tagOf(v.Payload))
+				mu.Unlock()
+				break
+			}
+			// the rule-following gateway for the application's requests: the expected number is accepted (put on the
+			// bus, acknowledged), the one before it acknowledged again, anything else ignored
+			mu.Lock()
+			tag := tagOf(v.Payload)
+			switch int(v.SeqNumber) {
+			case gwExpect:
+				nReq++
+				if p.LoseEvery > 0 && nReq%p.LoseEvery == 0 && lostSeq != gwExpect {
+					lostSeq, lostTag = gwExpect, tag // never arrives
+					mu.Unlock()
+					return nil
+				}
+				if lostSeq == gwExpect && tag != lostTag && sendProblem == "" {
+					sendProblem = fmt.Sprintf("retransmission-differs|the repetition of request number %d carries telegram %d, its first transmission (lost on the way) carried telegram %d", gwExpect, tag, lostTag)
+				}
+				lostSeq = -1
+				bus = append(bus, tag)
+				gwExpect = (gwExpect + 1) % 256
+				sock.Inject(&knxnet.TunnelRes{Channel: v.Channel, SeqNumber: v.SeqNumber, Status: knxnet.NoError})
+			case (gwExpect + 255) % 256:
 				sock.Inject(&knxnet.TunnelRes{Channel: v.Channel, SeqNumber: v.SeqNumber, Status: knxnet.NoError})
 			}
+			mu.Unlock()
 		case *knxnet.TunnelRes:
 			mu.Lock()
 			atomic.AddInt64(&acks, 1)
@@ -87,6 +121,9 @@ func streamRun(p streamPlan) (*common.Fail, string) {
 	if p.HbUs > 0 {
 		cfg.HeartbeatInterval = us(p.HbUs)
 	}
+	if p.LoseEvery > 0 {
+		cfg.ResendInterval = 20 * time.Millisecond
+	}
 	var tun *knx.Tunnel
 	var gt knx.GroupTunnel
 	var err error
@@ -104,11 +141,17 @@ func streamRun(p streamPlan) (*common.Fail, string) {
 	// the application's own traffic
 	sendErr := make(chan string, 1)
 	var sendsDone sync.WaitGroup
-	if p.Sends > 0 {
+	senders := p.Senders
+	if senders < 1 {
+		senders = 1
+	}
+	var okMu sync.Mutex
+	var okTags []int
+	for g := 0; g < senders && p.Sends > 0; g++ {
 		sendsDone.Add(1)
-		go func() {
+		go func(g int) {
 			defer sendsDone.Done()
-			for i := 0; i < p.Sends; i++ {
+			for i := g; i < p.Sends; i += senders {
 				var e error
 				if p.Group {
 					e = gt.Send(knx.GroupEvent{Command: knx.GroupWrite, Destination: cemi.NewGroupAddr3(1, 2, 3), Data: tagData(100000 + i)})
@@ -122,8 +165,11 @@ func streamRun(p streamPlan) (*common.Fail, string) {
 					}
 					return
 				}
+				okMu.Lock()
+				okTags = append(okTags, 100000+i)
+				okMu.Unlock()
 			}
-		}()
+		}(g)
 	}
 	// the gateway starts streaming
 	mu.Lock()
@@ -204,6 +250,33 @@ func streamRun(p streamPlan) (*common.Fail, string) {
 		}
 	}
 	sendsDone.Wait()
+	// the application's telegrams: every successful Send is on the bus exactly once, nothing is there twice, a
+	// repetition carried what its first transmission carried
+	mu.Lock()
+	sp, onBus := sendProblem, append([]int{}, bus...)
+	mu.Unlock()
+	if sp != "" {
+		for i := 0; i < len(sp); i++ {
+			if sp[i] == '|' {
+				return common.Failf(sp[:i], "streaming gateway, %d application goroutines in Send: %s", senders, sp[i+1:]), ""
+			}
+		}
+	}
+	cnt := map[int]int{}
+	for _, t := range onBus {
+		cnt[t]++
+		if cnt[t] > 1 {
+			return common.Failf("bus-twice", "streaming gateway, %d application goroutines in Send, first transmission of every %d-th request lost: telegram %d was put on the bus twice (bus: ...%v)", senders, p.LoseEvery, t, onBus[max(0, len(onBus)-8):]), ""
+		}
+	}
+	okMu.Lock()
+	for _, t := range okTags {
+		if cnt[t] != 1 {
+			okMu.Unlock()
+			return common.Failf("success-not-on-bus", "streaming gateway, %d application goroutines in Send, first transmission of every %d-th request lost: Send of telegram %d returned nil but it is %d times on the bus", senders, p.LoseEvery, t, cnt[t]), ""
+		}
+	}
+	okMu.Unlock()
 	mu.Lock()
 	ap := ackProblem
 	mu.Unlock()
@@ -242,6 +315,22 @@ func genStreamPlan(rt *rapid.T, thorough bool) streamPlan {
 	p.TCP = rapid.IntRange(0, 4).Draw(rt, "tcp") == 0
 	if rapid.Bool().Draw(rt, "duplex") {
 		p.Sends = rapid.IntRange(1, 200).Draw(rt, "sends")
+		p.Senders = rapid.SampledFrom([]int{1, 1, 2, 3}).Draw(rt, "senders")
+		if !p.TCP && rapid.Bool().Draw(rt, "lossy-first-transmissions") {
+			p.LoseEvery = rapid.IntRange(2, 9).Draw(rt, "lose-every")
+			if p.Sends > 40 {
+				p.Sends = 40
+			}
+		}
+	}
+	if rapid.IntRange(0, 3).Draw(rt, "contended-senders") == 0 {
+		// 2..3 application goroutines in Send at once while the first transmission of every 2nd..4th request is lost:
+		// what a Send retransmits is what it transmitted first, whatever the others hand in meanwhile
+		p.TCP = false
+		p.Group = rapid.Bool().Draw(rt, "contended-group")
+		p.Senders = rapid.IntRange(2, 3).Draw(rt, "contended-n")
+		p.LoseEvery = rapid.IntRange(2, 4).Draw(rt, "contended-lose-every")
+		p.Sends = rapid.IntRange(12, 40).Draw(rt, "contended-sends")
 	}
 	if rapid.IntRange(0, 2).Draw(rt, "heartbeats") == 0 {
 		p.HbUs = rapid.SampledFrom([]int{100, 1000, 10000}).Draw(rt, "hb-us")
@@ -277,6 +366,9 @@ func streamTest(t *testing.T, id string) {
 			busy = busy || d > 0
 		}
 		rec.Class(fmt.Sprintf("stream tcp=%v group=%v busy-reader=%v duplex=%v heartbeats=%v", p.TCP, p.Group, busy, p.Sends > 0, p.HbUs > 0))
+		if p.Senders > 1 && p.LoseEvery > 0 {
+			rec.Class("stream: several goroutines in Send, first transmissions lost")
+		}
 		if busy {
 			rec.NonTrivial(common.HashJSON(p))
 		}
@@ -290,3 +382,167 @@ func streamTest(t *testing.T, id string) {
 // telegram the gateway holds an acknowledgement for is delivered once, in the gateway's order) on a perfect link.
 func TestC17Stream(t *testing.T) { streamTest(t, "C17") }
 func TestC05Stream(t *testing.T) { streamTest(t, "C05") }
+
+// ---------------------------------------------------------------------------------------------------------------------
+// Close while the gateway streams (C10): the gateway works off a backlog - the next telegram the moment the previous
+// acknowledgement is in its hands - so the client's server goroutine has a frame at hand every time it looks; the
+// application reads as fast as it can. After a drawn time it calls Close. The disconnect request is answered or not
+// (a datagram that got lost). Close returns within a bound that does not depend on the traffic, exactly one disconnect
+// request has been sent, Inbound closes, a Send afterwards fails at once.
+type streamClosePlan struct {
+	CloseAfterMs int  `json:"close_after_ms"`
+	AnswerDisc   bool `json:"answer_disc"`
+	Group        bool `json:"group"`
+	Backlog      int  `json:"backlog"` // telegrams the gateway keeps in flight ahead of the acknowledgements (1 = stop-and-wait)
+	ReadAhead    int  `json:"read_ahead"` // frames the socket's Inbound() channel buffers (0 = hand-over only, as the library's sockets)
+}
+
+func streamCloseRun(p streamClosePlan) (*common.Fail, string) {
+	sock := common.NewMemSockBuffered(&net.UDPAddr{IP: net.IPv4(192, 168, 7, 9), Port: 43671}, p.ReadAhead)
+	var mu sync.Mutex
+	next, discReqs := 0, 0
+	stopped := false
+	injectNext := func() { // mu held
+		if !stopped {
+			sock.InjectDirect(&knxnet.TunnelReq{Channel: 7, SeqNumber: uint8(next), Payload: inMsg(next, p.Group)})
+			next++
+		}
+	}
+	sock.OnSend = func(f *common.OutFrame) error {
+		switch v := f.Svc.(type) {
+		case *knxnet.ConnReq:
+			sock.Inject(&knxnet.ConnRes{Channel: 7, Status: knxnet.NoError, Control: knxnet.HostInfo{Protocol: knxnet.UDP4}})
+		case *knxnet.ConnStateReq:
+			sock.Inject(&knxnet.ConnStateRes{Channel: v.Channel, Status: knxnet.NoError})
+		case *knxnet.DiscReq:
+			mu.Lock()
+			discReqs++
+			mu.Unlock()
+			if p.AnswerDisc {
+				sock.Inject(&knxnet.DiscRes{Channel: v.Channel, Status: knxnet.NoError})
+			}
+		case *knxnet.TunnelRes:
+			mu.Lock()
+			injectNext()
+			mu.Unlock()
+		}
+		return nil
+	}
+	cfg := knx.TunnelConfig{ResendInterval: 50 * time.Millisecond, ResponseTimeout: 250 * time.Millisecond, HeartbeatInterval: time.Hour}
+	var tun *knx.Tunnel
+	var gt knx.GroupTunnel
+	var err error
+	if p.Group {
+		gt, err = knx.VerifNewGroupTunnel(sock, cfg)
+		tun = gt.Tunnel
+	} else {
+		tun, err = knx.VerifNewTunnel(sock, knxnet.TunnelLayerData, cfg)
+	}
+	if err != nil {
+		sock.Close()
+		return nil, "connect failed: " + err.Error()
+	}
+	inboundClosed := make(chan struct{})
+	go func() {
+		defer close(inboundClosed)
+		if p.Group {
+			for range gt.Inbound() {
+			}
+		} else {
+			for range tun.Inbound() {
+			}
+		}
+	}()
+	mu.Lock()
+	for i := 0; i < p.Backlog; i++ {
+		injectNext()
+	}
+	mu.Unlock()
+	time.Sleep(time.Duration(p.CloseAfterMs) * time.Millisecond)
+	mu.Lock()
+	streamed := next
+	mu.Unlock()
+	closed := make(chan struct{})
+	t0 := time.Now()
+	go func() { tun.Close(); close(closed) }()
+	var fail *common.Fail
+	select {
+	case <-closed:
+	case <-time.After(3 * time.Second):
+		mu.Lock()
+		n := next
+		stopped = true
+		mu.Unlock()
+		fail = common.Failf("close-hung", "the gateway was streaming (next telegram on every acknowledgement, %d in flight; %d tunnelled before Close, %d by now; disconnect request answered: %v): Close did not return within 3 s (response timeout 250 ms)", p.Backlog, streamed, n, p.AnswerDisc)
+		select {
+		case <-closed:
+		case <-time.After(5 * time.Second):
+		}
+	}
+	took := time.Since(t0)
+	if os.Getenv("VERIF_TRACE") != "" {
+		fmt.Printf("stream-close: streamed before Close %d, by the end %d, Close took %v\n", streamed, next, took)
+	}
+	mu.Lock()
+	stopped = true
+	dr := discReqs
+	mu.Unlock()
+	if fail == nil {
+		select {
+		case <-inboundClosed:
+		case <-time.After(2 * time.Second):
+			fail = common.Failf("inbound-not-closed", "Close returned after %v while the gateway was streaming, but Inbound() was not closed 2 s later", took)
+		}
+	}
+	if fail == nil && dr != 1 {
+		fail = common.Failf("disconnect-count", "Close while the gateway was streaming: %d disconnect requests were sent, exactly one is due (the socket was usable)", dr)
+	}
+	if fail == nil {
+		done := make(chan error, 1)
+		go func() { done <- tun.Send(reqMsg(1)) }()
+		select {
+		case e := <-done:
+			if e == nil {
+				fail = common.Failf("send-after-close", "a Send after Close had returned reported success")
+			}
+		case <-time.After(2 * time.Second):
+			fail = common.Failf("send-after-close", "a Send after Close had returned was still blocked 2 s later")
+		}
+	}
+	sock.Close()
+	<-sock.PumpDone()
+	return fail, ""
+}
+
+func TestC10Stream(t *testing.T) {
+	rec := common.NewRec("C10", "stream")
+	completed := false
+	defer func() { rec.Finish(completed) }()
+	run := func(p streamClosePlan) *common.Fail {
+		if p.Backlog < 1 {
+			p.Backlog = 1
+		}
+		rec.InFlight(p)
+		f, inc := streamCloseRun(p)
+		rec.Landed()
+		if inc != "" {
+			rec.Inconclusive(inc)
+		}
+		return f
+	}
+	if rec.Env.Replay != "" {
+		common.ReplayOnly(t, rec, run)
+		completed = true
+		return
+	}
+	common.Drive(t, rec, func(rt *rapid.T) streamClosePlan {
+		p := streamClosePlan{CloseAfterMs: rapid.SampledFrom([]int{1, 5, 20, 60, 150}).Draw(rt, "close-after"), AnswerDisc: rapid.Bool().Draw(rt, "answer-disc"),
+			Group: rapid.IntRange(0, 2).Draw(rt, "group") == 0, Backlog: rapid.SampledFrom([]int{1, 1, 2, 16}).Draw(rt, "backlog"),
+			ReadAhead: rapid.SampledFrom([]int{0, 1, 16}).Draw(rt, "read-ahead")}
+		rec.Class(fmt.Sprintf("close while streaming: disconnect request answered=%v group=%v in-flight=%d socket-read-ahead=%d", p.AnswerDisc, p.Group, p.Backlog, p.ReadAhead))
+		rec.NonTrivial(common.HashJSON(p))
+		rec.Sample("stream-close", p)
+		return p
+	}, run)
+	completed = true
+}
